@@ -28,11 +28,13 @@ PROGS = [
     "int T; int z = T * 2;",
     "typedef char U; void f(U T) { T * 3; }",
     "# 40 \"b.h\"\nstruct T { int T; } T; int w = sizeof(T);",
+    "# 1 \"x.c\"\nint a;\n# 7 \"x.h\"\nint a2;",
+    "# 9 \"y.c\"\nint b;\n# 3 \"y.h\"\nint b2;",
 ]
 LONG = [
-    "typedef int T; typedef T *PT; struct S { T a; PT b; }; T f(T x) { { T T; T * x; } return (T)x; }\n# 9 \"l1.h\"\nT g;",
-    "int T, PT; int h(int S) { T * PT; S = T + PT; return sizeof T; }\n#pragma p q\nint k = T;",
-    "enum { T, U }; int m[] = { T, U, [2] = T * U };\n# 77 \"l3.h\"\nint n = T ? U : T;",
+    "# 11 \"l1.c\"\ntypedef int T; typedef T *PT; struct S { T a; PT b; }; T f(T x) { { T T; T * x; } return (T)x; }\n# 9 \"l1.h\"\nT g;",
+    "# 22 \"l2.c\"\nint T, PT; int h(int S) { T * PT; S = T + PT; return sizeof T; }\n#pragma p q\nint k = T;",
+    "# 33 \"l3.c\"\nenum { T, U }; int m[] = { T, U, [2] = T * U };\n# 77 \"l3.h\"\nint n = T ? U : T;",
 ]
 
 
@@ -156,8 +158,8 @@ def run(tier):
     ctx.cov["rule"] = ("every interleaving at token granularity of 2-3 parses of short programs with clashing names "
                        "(enumerated by TLC from Session.tla, replayed with a scheduling lexer), random schedules of long "
                        "programs, free-running threads; a case is one schedule")
-    plans = [([0, 1], 5), ([2, 3], 5), ([0, 1, 2], 2)] if tier == "quick" else \
-        [([0, 1], 7), ([2, 3], 7), ([0, 3], 6), ([0, 1, 2], 3), ([0, 1, 2, 3], 1)]
+    plans = [([0, 1], 5), ([2, 3], 5), ([4, 5], 5), ([3, 4], 4), ([0, 1, 2], 2)] if tier == "quick" else \
+        [([0, 1], 7), ([2, 3], 7), ([4, 5], 7), ([0, 3], 6), ([3, 5], 6), ([0, 1, 2], 3), ([3, 4, 5], 3), ([0, 1, 2, 3], 1)]
     total = 0
     for idxs, ntok in plans:
         progs = [truncate(PROGS[i], ntok) for i in idxs]
